@@ -1405,6 +1405,21 @@ impl CCase {
         if sorted != (0..nvars as u32).collect::<Vec<_>>() || order.iter().enumerate().all(|(i, v)| i as u32 == *v) {
             order = Vec::new();
         }
+        // operands must be functions of the introduced variables only (the generators guarantee it;
+        // a hand-written replay file might not)
+        let narrow_ok = |f: u8| nvars >= 3 || (0..8usize).all(|m| (f >> m) & 1 == (f >> (m & ((1 << nvars) - 1))) & 1);
+        let wide_ok = |f: u64| nvars >= 6 || (0..64usize).all(|m| (f >> m) & 1 == (f >> (m & ((1 << nvars) - 1))) & 1);
+        let ok = match &op {
+            COp::Apply(a, b, _) => nvars >= 1 && nvars <= 3 && narrow_ok(*a) && narrow_ok(*b),
+            COp::Negate(a) => nvars >= 1 && nvars <= 3 && narrow_ok(*a),
+            COp::ApplyW(a, b, _) => nvars >= 1 && nvars <= 6 && wide_ok(*a) && wide_ok(*b),
+            COp::NegateW(a) => nvars >= 1 && nvars <= 6 && wide_ok(*a),
+            COp::Literal(v, _, _) => (*v as usize) < nvars && nvars <= 3,
+            COp::Eo(l, _, _) => nvars <= 6 && l.iter().all(|v| (*v as usize) < nvars),
+        };
+        if !ok {
+            return None;
+        }
         Some(CCase { nvars, order, op })
     }
     fn opkind(&self) -> &'static str {
@@ -2493,6 +2508,10 @@ fn replay(_ctx: &Ctx, case: &Value) -> ShardOut {
             }
         }
         Some("C") => {
+            if CCase::from_json(case).is_none() {
+                out.machinery_errors.push(format!("C07 replay: not a case of the part C enumeration (operands must be functions of the introduced variables, variables must be introduced): {}", case));
+                return out;
+            }
             // all k and all n for the recorded operation, several rounds (checkpoint order varies)
             for _ in 0..4 {
                 if let Some((tags, f)) = c_reexec(case) {
